@@ -320,4 +320,63 @@ Corollary executed_histories_poll ops id hk :
   end.
 Proof. cbn zeta. apply (poll_outcomes BUF BUF_min BUF_u32). apply executed_histories_keep_inv. Qed.
 
+(* ---------- the kill switch over executed histories (C18) ---------- *)
+Lemma poll_killed w : w_killed w = true -> poll BUF w = Server.PErr EShutdown.
+Proof. intros Hk. unfold poll, ready_events. rewrite Hk. reflexivity. Qed.
+
+Lemma srv_poll_killed pre w : w_killed w = true -> fst (srv_poll BUF pre w) = w.
+Proof. intros Hk. unfold srv_poll. rewrite (poll_killed w Hk). reflexivity. Qed.
+
+Lemma srv_poll_many_killed : forall fuel pre w, w_killed w = true -> fst (srv_poll_many BUF fuel pre w) = w.
+Proof.
+  induction fuel as [|f IH]; intros pre w Hk; cbn [srv_poll_many]; [reflexivity|].
+  pose proof (srv_poll_killed pre w Hk) as E. destruct (srv_poll BUF pre w) as [w' line]. cbn [fst] in E. subst w'.
+  rewrite (poll_killed w Hk). reflexivity.
+Qed.
+
+Lemma respond_killed w g r w' : respond w g r = inl w' -> w_killed w' = w_killed w.
+Proof.
+  unfold respond. destruct (alookup g (w_conns w)); [|intros H; inversion H; reflexivity].
+  destruct (cc_enqueue _ r); [|discriminate]. intros H; inversion H; reflexivity.
+Qed.
+
+Lemma run_sop_killed id i hk w o : w_killed w = true -> w_killed (fst (run_sop BUF id i hk w o)) = true.
+Proof.
+  intros Hk. destruct o; cbn [run_sop fst]; try exact Hk.
+  - match goal with |- context [if ?c then _ else _] => destruct c end; exact Hk.
+  - pose proof (srv_poll_killed (B"srv " ++ dec id ++ B" " ++ decn i ++ B" ") w Hk) as E.
+    destruct (srv_poll BUF _ w) as [w' line]. cbn [fst] in *. subst. exact Hk.
+  - unfold respond_at. destruct (w_tokens w); [exact Hk|].
+    destruct (nth_error _ _) as [[[g gi] rq]|]; [|exact Hk].
+    destruct (respond _ g _) as [w2|] eqn:R; cbn [fst]; [rewrite (respond_killed _ _ _ _ R)|]; exact Hk.
+  - unfold respond_at. destruct (w_tokens w); [exact Hk|].
+    destruct (nth_error _ _) as [[[g gi] rq]|]; [|exact Hk].
+    destruct (respond _ g _) as [w2|] eqn:R; cbn [fst]; [rewrite (respond_killed _ _ _ _ R)|]; exact Hk.
+  - destruct (flush_tokens w) as (_ & _ & -> & _). exact Hk.
+  - destruct hk; [reflexivity|exact Hk].
+  - rewrite (srv_poll_many_killed _ _ w Hk). exact Hk.
+Qed.
+
+Lemma run_srv_ops_killed : forall ops id i hk w, w_killed w = true -> w_killed (fst (run_srv_ops BUF id i hk w ops)) = true.
+Proof.
+  induction ops as [|op r IH]; intros id i hk w Hk; cbn [run_srv_ops]; [exact Hk|].
+  pose proof (run_sop_killed id i hk w (decode_sop op) Hk) as H1. rewrite <- run_srv_op_sop in H1.
+  destruct (run_srv_op BUF id i hk w op) as [w' ls]. cbn [fst] in H1.
+  specialize (IH id (S i) hk w' H1). destruct (run_srv_ops BUF id (S i) hk w' r) as [w'' ls']. exact IH.
+Qed.
+
+(* once the switch is signalled, whatever happens afterwards -- any operations of clients and application --
+   every poll reports the shutdown *)
+Theorem executed_kill_is_forever ops id i hk w :
+  w_killed w = true -> poll BUF (fst (run_srv_ops BUF id i hk w ops)) = Server.PErr EShutdown.
+Proof. intros Hk. apply poll_killed. apply run_srv_ops_killed. exact Hk. Qed.
+
+(* C10 over executed histories: never more than MAX_CONNECTIONS entries, all under distinct descriptors *)
+Corollary executed_capacity ops id hk :
+  (length (w_conns (fst (run_srv_ops BUF id 0 hk world0 ops))) <= MAX_CONNECTIONS)%nat /\
+  NoDup (map fst (w_conns (fst (run_srv_ops BUF id 0 hk world0 ops)))).
+Proof.
+  pose proof (executed_histories_keep_inv ops id hk) as HI. split; [apply (inv_cap _ _ _ HI)|apply (inv_nodup _ _ _ HI)].
+Qed.
+
 End RI3.
